@@ -364,9 +364,16 @@ def _result(spec, model, viol, states, note=None, extra=None):
 # SQL path
 
 
-def render(op, g, dialect_multi="mysql", columns=False):
+def render(op, g, dialect_multi="mysql", columns=False, universe=()):
     if op[0] == "rw":
         R, w = op[1], op[2]
+        stray = [u for u in universe if u not in R and u != w]
+        if R and columns and stray and g.random() < 0.12:
+            # a column qualifier that names no dataset of this statement (a STRUCT field access such as address.city,
+            # an outer alias) but is spelled like another table of the script: it is neither read nor written here
+            frm = R[0] + "".join(f" JOIN {r} ON {R[0]}.k = {r}.k" for r in R[1:])
+            x = g.choice(stray)
+            return (f"INSERT INTO {w} " if w is not None else "") + f"SELECT {x}.k, {R[0]}.v_{R[0]} FROM {frm}"
         if R and w is not None and columns and g.random() < 0.75:
             # column-bearing renderings (histories without DROP/RENAME only): every table t has columns k and v_t.
             # An unqualified v_r read from a join has several candidate owners; another statement that declares v_r
@@ -411,7 +418,7 @@ def check_history_sql(spec) -> dict:
     for op in ops:
         k = json.dumps(op)
         if k not in rendered:
-            rendered[k] = render(op, g, columns=bool(spec.get("columns")) and all(o[0] == "rw" for o in ops))
+            rendered[k] = render(op, g, columns=bool(spec.get("columns")) and all(o[0] == "rw" for o in ops), universe=[u for u in spec["universe"] if u not in ("e", "f")])
         stmts.append(rendered[k])
     universe = {q(t) for t in spec["universe"]}
     facts = []
@@ -445,11 +452,15 @@ def check_history_sql(spec) -> dict:
                 model.probe("sql_column_bearing_history")
                 if any("VALUES" in s_ for s_ in stmts) and any(" JOIN " in s_ and " SELECT v_" in s_ for s_ in stmts):
                     model.probe("constant_write_beside_ambiguous_column")
+                touched = {t for f_ in all_facts for t in f_["read"] + f_["write"]}
+                if any(q(u) in touched and f"SELECT {u}.k, " in s_ and f" {u} " not in s_.replace(f"SELECT {u}.k, ", "") + " " for u in spec["universe"] for s_ in stmts):
+                    model.probe("stray_qualifier_names_a_table_of_the_script")
             err = None
         except Exception as e:
             obs, err = None, e
         finally:
             tapmod.set_tap(None)
+        all_facts = list(facts)
         if err is None and len(facts) != i:
             return _result(spec, model, {"class": "harness_tap_count", "message": f"expected {i} statement taps, saw {len(facts)} for {stmts[:i]}", "at": i}, states)
         # feed the model with the facts of the newest statement
